@@ -26,7 +26,9 @@ def events (d : D) (toks : List String) : D × List Ev :=
   | ["call", t, "acquire", k, _, _] => ({ d with acq := (t, k.toNat?.getD 0) :: d.acq.filter (·.1 ≠ t) }, tm)
   | ["call", t, "release", k, r, _] =>
     let k := k.toNat?.getD 0
-    ({ d with rel := (t, k, r = "1") :: d.rel.filter (·.1 ≠ t) }, tm ++ [.callRelease k (r = "1")])
+    -- effective recycle flag: demoted when another recycling release of this key is pending
+    let eff : Bool := decide (r = "1") && decide ((d.st.item k).recycling = 0)
+    ({ d with rel := (t, k, eff) :: d.rel.filter (·.1 ≠ t) }, tm ++ [.callRelease k eff])
   | ["ret", t, "acquire", o, _] =>
     match d.acq.find? (·.1 = t) with
     | some (_, k) => (d, tm ++ [.retAcquire k (objOf o)])
